@@ -36,7 +36,7 @@ theorem it_lastFinish (buf : List (Option α)) (i n : Nat) (hb : buf.length = n)
         simp only [itLastIdx]; rw [Int.ofNat_tmod]
       have hsplit : itLastSplit (n : Int) (itLastIdx (i : Int) (n : Int)) = ((n - i % n : Nat) : Int) := by
         rw [hidx']; simp only [itLastSplit]; omega
-      simp only [h2, if_true, h3, if_false, hn, hidx, hsplit, Int.toNat_natCast]
+      simp only [h2, if_true, h3, if_false, hn, ValueFacts.itLastFrom_eq, ValueFacts.itLastUpto_eq, hidx, hsplit, Int.toNat_natCast]
       have hc : ¬ ((((n - i % n : Nat) : Int) < 0) ∨ (((n - i % n : Nat) : Int) > (n : Int))) := by omega
       have hc' : (decide (((n - i % n : Nat) : Int) < 0) || decide (((n - i % n : Nat) : Int) > (n : Int))) = false := by
         simp <;> omega
